@@ -80,3 +80,45 @@ func ZZ_C12_parse_setup_conf() {
 	zz.Assert(sc.ContainerIfName == zz.IteStr(alloc.IfName == "", "eth0", alloc.IfName), "the interface name is the daemon's, defaulting to the runtime's")
 	zz.Assert(sc.DP == getDatePath(ipType, conf.VlanStripType, trunk), "the datapath follows from IP type, VLAN mode and trunking")
 }
+
+// C12(d), CHECK path: the periodic check verifies the same values the ADD
+// programmed - addresses, gateways, default-route flag, interface name and
+// datapath are recovered from the daemon's reply exactly as by the setup
+// parser; a malformed address is refused.
+func ZZ_C12_parse_check_conf() {
+	defRoute := zz.Bool("defaultRoute")
+	trunk := zz.Bool("trunk")
+	dual := zz.Bool("dual")
+	alloc := &rpc.NetConf{
+		BasicInfo:    &rpc.BasicInfo{PodIP: &rpc.IPSet{IPv4: "10.1.2.3"}, PodCIDR: &rpc.IPSet{IPv4: "10.1.0.0/16"}, GatewayIP: &rpc.IPSet{IPv4: "10.1.255.253"}, ServiceCIDR: &rpc.IPSet{IPv4: "172.16.0.0/12"}},
+		ENIInfo:      &rpc.ENIInfo{Trunk: trunk, GatewayIP: &rpc.IPSet{IPv4: "10.1.255.253"}},
+		Pod:          &rpc.Pod{},
+		IfName:       zz.OneOf("ifname", "", "eth1"),
+		DefaultRoute: defRoute,
+	}
+	if dual {
+		alloc.BasicInfo.PodIP.IPv6 = "fd00::3"
+		alloc.BasicInfo.PodCIDR.IPv6 = "fd00::/64"
+		alloc.BasicInfo.GatewayIP.IPv6 = "fd00::ffff:ffff:ffff:fffd"
+	}
+	bad := zz.Bool("malformed.address")
+	if bad {
+		alloc.BasicInfo.PodIP.IPv4 = "10.1.2"
+	}
+	conf := &types.CNIConf{MTU: 1500}
+	ipType := []rpc.IPType{rpc.IPType_TypeVPCENI, rpc.IPType_TypeENIMultiIP}[zz.Fork("iptype", 2)]
+	cc, err := parseCheckConf(&skel.CmdArgs{IfName: "eth0"}, alloc, conf, ipType)
+	if bad {
+		zz.Assert(err != nil && cc == nil, "a malformed address in the reply is refused")
+		return
+	}
+	zz.Assert(err == nil && cc != nil, "a well-formed daemon reply is accepted")
+	sc, err2 := parseSetupConf(&skel.CmdArgs{IfName: "eth0"}, alloc, conf, ipType)
+	zz.Assert(err2 == nil && sc != nil, "the setup parser accepts the same reply")
+	zz.Assert(cc.ContainerIPNet.IPv4.String() == sc.ContainerIPNet.IPv4.String() && cc.GatewayIP.IPv4.Equal(sc.GatewayIP.IPv4), "CHECK verifies the IPv4 address and gateway that ADD programmed")
+	zz.Assert((cc.ContainerIPNet.IPv6 != nil) == dual, "IPv6 is checked exactly when the daemon sent an IPv6 address")
+	if dual {
+		zz.Assert(cc.ContainerIPNet.IPv6.String() == sc.ContainerIPNet.IPv6.String() && cc.GatewayIP.IPv6.Equal(sc.GatewayIP.IPv6), "CHECK verifies the IPv6 address and gateway that ADD programmed")
+	}
+	zz.Assert(cc.DP == sc.DP && cc.ContainerIfName == sc.ContainerIfName && cc.DefaultRoute == defRoute && cc.TrunkENI == trunk && cc.MTU == 1500, "datapath, interface name, default-route flag, trunk flag and MTU agree with the setup")
+}
